@@ -775,6 +775,31 @@ def _is_one_shot(program, m, e, genfns):
     return None
 
 
+def _leaves_early(loop):
+    """The for statement has a break of its own (not of a nested loop)."""
+    def walk(sts):
+        for s in sts:
+            if isinstance(s, ast.Break):
+                return True
+            if isinstance(s, (ast.For, ast.While, ast.FunctionDef,
+                              ast.ClassDef, ast.AsyncFunctionDef)):
+                # a nested loop's break is its own; its else part is ours
+                if isinstance(s, (ast.For, ast.While)) and walk(s.orelse):
+                    return True
+                continue
+            for fld in ("body", "orelse", "finalbody"):
+                if walk(getattr(s, fld, []) or []):
+                    return True
+            for h in getattr(s, "handlers", []) or []:
+                if walk(h.body):
+                    return True
+            for c in getattr(s, "cases", []) or []:
+                if walk(c.body):
+                    return True
+        return False
+    return walk(loop.body)
+
+
 def exhaust(program, m, fn, genfns):
     out = []
     binds = {}
@@ -822,6 +847,12 @@ def exhaust(program, m, fn, genfns):
             elif isinstance(p, ast.Call) and isinstance(p.func, ast.Name) \
                     and p.func.id == "next":
                 traversals = None       # drawn from on purpose
+                break
+            elif isinstance(p, ast.For) and p.iter is r and \
+                    _leaves_early(p):
+                # a traversal that can stop half way is a cursor that a later
+                # traversal resumes: drawn from on purpose
+                traversals = None
                 break
             elif (isinstance(p, (ast.For, ast.comprehension)) and
                   p.iter is r) or \
@@ -1984,6 +2015,182 @@ def memokey(fn):
 
 
 # --------------------------------------------------------------------------
+# PACKKEY
+# --------------------------------------------------------------------------
+def packkey(fn):
+    """Several values packed into one integer that is then used as the key of
+    a table (``table[x + (y << 8) + (z << 8)]``): the packing identifies the
+    tuple only if every value has a position of its own.  Reported when two
+    different values are shifted to the same position: tuples that differ
+    only by moving an amount from one of them to the other get one key."""
+    out = []
+    binds = {}
+    for n in _own_nodes(fn):
+        if isinstance(n, ast.Name) and isinstance(n.ctx, (ast.Store,
+                                                           ast.Del)):
+            binds.setdefault(n.id, []).append(n)
+
+    def resolve(e):
+        if isinstance(e, ast.Name) and len(binds.get(e.id, ())) == 1:
+            st = binds[e.id][0]._parent
+            if isinstance(st, ast.Assign) and len(st.targets) == 1 and \
+                    st.targets[0] is binds[e.id][0]:
+                return st.value
+        return e
+
+    def flatten(e, acc):
+        if isinstance(e, ast.BinOp) and isinstance(e.op, (ast.Add,
+                                                           ast.BitOr)):
+            return flatten(e.left, acc) and flatten(e.right, acc)
+        sh = 0
+        if isinstance(e, ast.BinOp) and isinstance(e.op, ast.LShift) and \
+                isinstance(e.right, ast.Constant) and \
+                isinstance(e.right.value, int):
+            sh, e = e.right.value, e.left
+        elif isinstance(e, ast.BinOp) and isinstance(e.op, ast.Mult) and \
+                isinstance(e.right, ast.Constant) and \
+                isinstance(e.right.value, int) and e.right.value > 1 and \
+                e.right.value & (e.right.value - 1) == 0:
+            sh, e = e.right.value.bit_length() - 1, e.left
+        if isinstance(e, ast.BinOp) and isinstance(e.op, ast.BitAnd) and \
+                isinstance(e.right, ast.Constant):
+            e = e.left
+        if not isinstance(e, (ast.Name, ast.Attribute)):
+            return False
+        acc.append((ast.dump(e), sh, e))
+        return True
+    seen = set()
+    for n in _own_nodes(fn):
+        key = None
+        if isinstance(n, ast.Subscript) and isinstance(
+                n.value, (ast.Name, ast.Attribute)):
+            key = n.slice
+        elif isinstance(n, ast.Compare) and len(n.ops) == 1 and isinstance(
+                n.ops[0], (ast.In, ast.NotIn)):
+            key = n.left
+        elif isinstance(n, ast.Call) and isinstance(n.func, ast.Attribute) \
+                and n.func.attr in ("get", "setdefault", "pop") and n.args:
+            key = n.args[0]
+        if key is None:
+            continue
+        e = resolve(key)
+        if id(e) in seen:
+            continue
+        seen.add(id(e))
+        acc = []
+        if not flatten(e, acc) or len(acc) < 2 or \
+                not any(sh for _, sh, _ in acc):
+            continue
+        for i, (d1, s1, e1) in enumerate(acc):
+            for d2, s2, e2 in acc[i + 1:]:
+                if d1 != d2 and s1 == s2 and s1 > 0:
+                    out.append((e, "the key %s packs %s and %s at the same "
+                                "position (<< %d): different tuples of "
+                                "values get the same key, and the entry "
+                                "filed for one is found for the other" % (
+                                    _txt(e, 50), _txt(e1, 20), _txt(e2, 20),
+                                    s1)))
+    return out
+
+
+# --------------------------------------------------------------------------
+# REFORMAT
+# --------------------------------------------------------------------------
+def _formats_param(fn):
+    """Parameters of fn that fn itself uses as a format template
+    (``p.format(...)`` / ``p % ...``) without rebinding them."""
+    a = fn.args
+    params = [x.arg for x in a.posonlyargs + a.args + a.kwonlyargs]
+    rebound = {n.id for n in _own_nodes(fn) if isinstance(n, ast.Name) and
+               isinstance(n.ctx, (ast.Store, ast.Del))}
+    out = set()
+    for n in _own_nodes(fn):
+        if isinstance(n, ast.Call) and isinstance(n.func, ast.Attribute) \
+                and n.func.attr == "format" and isinstance(
+                    n.func.value, ast.Name) and n.func.value.id in params \
+                and n.func.value.id not in rebound:
+            out.add(n.func.value.id)
+        elif isinstance(n, ast.BinOp) and isinstance(n.op, ast.Mod) and \
+                isinstance(n.left, ast.Name) and n.left.id in params and \
+                n.left.id not in rebound and isinstance(
+                    n.right, (ast.Tuple, ast.Dict)):
+            out.add(n.left.id)
+    return out
+
+
+def _already_formatted(e):
+    if isinstance(e, ast.Call) and isinstance(e.func, ast.Attribute) and \
+            e.func.attr == "format" and e.args + [k.value for k in
+                                                  e.keywords]:
+        return "str.format"
+    if isinstance(e, ast.BinOp) and isinstance(e.op, ast.Mod) and \
+            isinstance(e.left, ast.Constant) and isinstance(
+                e.left.value, str):
+        return "%"
+    if isinstance(e, ast.JoinedStr) and any(
+            isinstance(v, ast.FormattedValue) for v in e.values):
+        return "an f-string"
+    return None
+
+
+def reformat(program, m):
+    """A text that the caller has already formatted (``"..{}..".format(v)``)
+    is handed to a function or exception class that formats its argument
+    again: whatever the first formatting put into the text is now read as
+    part of a template - a brace in a value (the repr of a set or dict, a
+    name like 'dtcm{0}') is a field, and the call raises KeyError /
+    IndexError / ValueError instead of doing what it was called for."""
+    out = []
+    for c in ast.walk(m.tree):
+        if not isinstance(c, ast.Call) or not isinstance(c.func, ast.Name):
+            continue
+        nm = c.func.id
+        d = m.defs.get(nm)
+        if d is None and ":" in m.imports.get(nm, ""):
+            mod2, _, nm2 = m.imports[nm].partition(":")
+            m2 = program.full(mod2) if hasattr(program, "full") else \
+                program.modules.get(mod2)
+            d = m2.defs.get(nm2) if m2 is not None else None
+        if d is None or not isinstance(getattr(d, "_parent", None),
+                                       ast.Module):
+            continue
+        drop = 0
+        if isinstance(d, ast.ClassDef):
+            inits = [x for x in d.body if isinstance(x, _FUNC) and
+                     x.name == "__init__"]
+            if len(inits) != 1:
+                continue
+            d, drop = inits[0], 1
+        elif not isinstance(d, _FUNC):
+            continue
+        tmpl = _formats_param(d)
+        if not tmpl:
+            continue
+        a = d.args
+        pos = [x.arg for x in a.posonlyargs + a.args][drop:]
+        given = {}
+        for i, x in enumerate(c.args):
+            if isinstance(x, ast.Starred):
+                break
+            if i < len(pos):
+                given[pos[i]] = x
+        for k in c.keywords:
+            if k.arg:
+                given[k.arg] = k.value
+        for pn, x in given.items():
+            how = _already_formatted(x)
+            if pn in tmpl and how:
+                out.append((c, "%s is given a text already formatted with "
+                            "%s, and formats its parameter '%s' again: a "
+                            "brace or percent sign that the first "
+                            "formatting put into the text (the repr of a "
+                            "set, a name with braces) is read as a field - "
+                            "KeyError / IndexError / ValueError instead of "
+                            "the call's own effect" % (nm, how, pn), nm))
+    return out
+
+
+# --------------------------------------------------------------------------
 # SHALLOWCACHE
 # --------------------------------------------------------------------------
 def _mutable_attr_classes(m):
@@ -2233,6 +2440,12 @@ def findings(program, modules):
             out.append(("CALLSIG", mname, getattr(o, "name", "<module>"), c,
                         "call '%s' of %s: %s - TypeError when the call is "
                         "reached" % (_txt(c, 70), desc, p), desc))
+        for c, text, nm in reformat(program, m):
+            o = _owner(c)
+            while isinstance(o, ast.Lambda):
+                o = _owner(o)
+            out.append(("REFORMAT", mname, getattr(o, "name", "<module>"), c,
+                        text, nm))
         for q, d in sorted(m.defs.items()):
             if q == "__dups__" or not isinstance(d, _FUNC) or \
                     getattr(d, "_virtual", False):
@@ -2251,6 +2464,7 @@ def findings(program, modules):
                             ("FINALLYLOST", lambda d=d: finallylost(d)),
                             ("STALEDEP", lambda d=d: staledep(d)),
                             ("MEMOKEY", lambda d=d: memokey(d)),
+                            ("PACKKEY", lambda d=d: packkey(d)),
                             ("SHALLOWCACHE", lambda d=d: shallowcache(
                                 program, m, d)),
                             ("AXISORDER", lambda d=d: axisorder(d))):
@@ -2263,7 +2477,7 @@ _SELFTEST = []
 KINDS = ("UNDEF", "SELFATTR", "CALLSIG", "EXHAUST", "ITERMUT", "LATEBIND",
          "INTDIV", "SHADOW", "SWALLOW", "UNBOUND", "CACHEDMUT", "SNAPSHOT",
          "FINALLYLOST", "STALEDEP", "MEMOKEY", "SHALLOWCACHE",
-         "AXISORDER")
+         "AXISORDER", "PACKKEY", "REFORMAT")
 
 
 def selftest():
